@@ -16,7 +16,8 @@ Three obligations connect the writer's XML text to what the reader reports:
     the bounds, `DateTime.roundtrip`, `Transform.roundtrip`, `Image.roundtrip` and the four
     representations, `parseI64_toString` (every i64), `optString_of_find` (every string incl. empty and
     whitespace-only).  Floats: under `F64OK/F32OK ft fp v` = "the external float printer and parser
-    invert each other on v" (Rust's `Display`/`FromStr`; checked per value by the suites;
+    invert each other on v, and the printed text has no white space around it" (numeric element texts are
+    `trim`med before parsing: `trim_invisible`; Rust's `Display`/`FromStr`; checked per value by the suites;
     `nan_payload_lost` shows what the hypothesis excludes).
     Side conditions that are NECESSARY and discharged from the writer's own checks:
     `ExtsOk` (prefixes distinct; URLs distinct, non-empty, not the E57 namespace —
